@@ -222,8 +222,14 @@ Fixpoint run (fuel : nat) (s : state) (work : list (nat * nat)) : state :=
       end
   end.
 
-Definition FUEL (s : state) : nat := (10 + 8 * length (reqs s))%nat.
-Definition settle (s : state) (work : list (nat * nat)) : state := run (FUEL s) s work.
+(* Fuel: a potential that every scheduler step decreases (proved in ApiLive.v: the work list is always drained).
+   An item's weight bounds the items its request can still produce in this run; a queued request will be handed
+   an item of weight 3 (message queue) or 4 (blocking queue) when its lock is released. *)
+Definition weight (it : nat * nat) : nat :=
+  match snd it with 0%nat => 4 | 1%nat => 3 | 2%nat => 4 | 3%nat => 1 | _ => 1 end%nat.
+Definition potential (s : state) (work : list (nat * nat)) : nat :=
+  (list_sum (map weight work) + 3 * length (msg_q s) + 4 * length (block_q s))%nat.
+Definition settle (s : state) (work : list (nat * nat)) : state := run (S (potential s work)) s work.
 
 (* ---- events ---- *)
 Definition issue (s : state) (rid : nat) (cls : N) (blocking : bool) (nfrags : nat) (timeout : N) : state :=
